@@ -17,6 +17,7 @@ from __future__ import annotations
 from functools import lru_cache
 import itertools as itt
 
+from ..builder import NAMES3, build_ops, replay_sequence, run_sequences
 from ..ctf import base_assignments, event_from_json, event_items, event_json, ground_items, item_key, node_to_item, sub_assignments, val
 from ..fscm import FSCM
 from ..graphs import G, ancestors_inc, enum_L, enum_O, remove_in_edges, remove_out_edges
@@ -34,10 +35,21 @@ def _universe(tier):
     return [g for n in (1, 2, 3) for g in enum_L(n)] + list(enum_O(4, max_edges=3))
 
 
+@lru_cache(maxsize=None)
+def _universe4(tier):
+    """Four-node graphs on which the definitional clauses (ancestors, relevant subscripts) are checked: nested
+    interventions (one subscript an ancestor of another, both above a mediator) need a directed path of three edges."""
+    return list(enum_O(4, max_edges=4 if tier == "quick" else 5))
+
+
 def shards(tier):
     n = len(_universe(tier))
     idx = sorted(range(n), key=lambda i: -len(_universe(tier)[i].nodes))
-    return [(i, i + 1) for i in idx]
+    out = [(i, i + 1) for i in idx]
+    out += [("def4", i, i + 16) for i in range(0, len(_universe4(tier)), 16)]
+    # builder phase: one live graph object grown edge by edge, everything asked again after every insertion
+    out += [("build", i) for i in range(len(build_ops(NAMES3)))]
+    return out
 
 
 def describe(tier):
@@ -45,7 +57,11 @@ def describe(tier):
         "bound": ("graphs O(1..3)" if tier == "quick" else "graphs L(1..3) + O(4, <=3 edges)")
         + "; every counterfactual variable with every consistent subscript assignment (all sizes, incl. reflexive); events "
         "of one item (all subscript sizes) and of two items (up to 1 subscript each, repeated variables allowed); values - "
-        "and +; every base value assignment; every exogenous setting",
+        "and +; every base value assignment; every exogenous setting; definitional clauses (ancestors == Def. 2.1, minimisation "
+        "keeps every relevant subscript and adds none) for every variable and subscript assignment on "
+        + ("O(4, <=4 edges)" if tier == "quick" else "O(4, <=5 edges)")
+        + "; builder sequences: every sequence of 3 edge insertions over 3 names on one live graph object, the clauses without recorded findings "
+        "asked after every insertion (ancestors, minimisation, components)",
         "rule": "state = (graph, variable) or (graph, event); transition = one call of minimize_counterfactual / simplify / "
         "get_ancestors_of_counterfactual / do_counterfactual_factor_factorization compared with the functional witness "
         "(setting by setting, or by event probability) or with the definition-based reference",
@@ -125,7 +141,7 @@ def check_components(res: Res, g: G, yg, roots, cond, case):
             graph=yg,
         )
     except Exception as e:  # noqa
-        res.violation("components", case, f"get_ancestral_components raised {type(e).__name__}: {e}", finding="components_exception", fkey=fkey_of("C19c", case))
+        res.violation("components", case, f"get_ancestral_components raised {type(e).__name__}: {e}", finding="components_exception", fkey=fkey_of("C19c", {k: case[k] for k in ("graph", "roots", "conditioned")}))
         return
     got_k = frozenset(frozenset(key(x) for x in comp) for comp in got)
     want = ref_ancestral_components(g, roots, cond)
@@ -135,7 +151,7 @@ def check_components(res: Res, g: G, yg, roots, cond, case):
             case,
             f"get_ancestral_components gives {sorted(map(sorted, got_k))}, Definition 4.2 gives {sorted(map(sorted, want))}",
             finding="components_differ",
-            fkey=fkey_of("C19c", case),
+            fkey=fkey_of("C19c", {k: case[k] for k in ("graph", "roots", "conditioned")}),
         )
         res.outcomes["components_wrong"] += 1
     else:
@@ -255,30 +271,97 @@ def check_event(res: Res, g: G, yg, m, items, case):
     res.outcomes["factorization_" + outcome] += 1
 
 
-def explore_graph(res: Res, g: G, tier, seed, only=None):
+def check_variable_def(res: Res, g: G, yg, v, subs, case):
+    """Definitional clauses only (no witness): ancestors == Definition 2.1; the minimised variable keeps every subscript
+    that is an ancestor of v once the edges into the subscripts are cut (dropping one changes the variable in a generic
+    model) and has no subscript that v_subs does not have."""
+    from y0.algorithm.counterfactual_transport.ancestor_utils import get_ancestors_of_counterfactual, minimize_counterfactual
+    from y0.dsl import CounterfactualVariable, Variable
+
+    var = item_key((v, subs, False))
+    res.states += 1
+    res.transitions += 2
+    try:
+        got = get_ancestors_of_counterfactual(var, yg)
+        got_k = {(str(x.name), tuple(sorted((i.name, bool(i.star)) for i in x.interventions)) if isinstance(x, CounterfactualVariable) else ()) for x in got}
+        want = ref_ancestors(g, v, subs)
+        if got_k != want:
+            res.violation("ancestors", case, f"get_ancestors_of_counterfactual({var}) = {sorted(map(str, got))}, Definition 2.1 gives {sorted(want)}")
+        else:
+            res.outcomes["ancestors_ok"] += 1
+    except Exception as e:  # noqa
+        res.violation("ancestors", case, f"get_ancestors_of_counterfactual({var}) raised {type(e).__name__}: {e}")
+    try:
+        mv = minimize_counterfactual(var, yg)
+    except Exception as e:  # noqa
+        res.violation("minimize", case, f"minimize_counterfactual({var}) raised {type(e).__name__}: {e}")
+        return
+    if not (isinstance(mv, Variable) and mv.name == v and mv.star is None) or (isinstance(mv, CounterfactualVariable) and not mv.interventions):
+        res.violation("minimize", case, f"minimize_counterfactual({var}) returned the malformed {mv!r}")
+        return
+    msubs = set((i.name, bool(i.star)) for i in mv.interventions) if isinstance(mv, CounterfactualVariable) else set()
+    need = set(ref_minimize(g, v, subs)[1])
+    if not msubs <= set(subs) or not need <= msubs:
+        res.violation("minimize", case, f"minimize_counterfactual({var}) = {mv}: relevant subscripts are {sorted(need)}")
+        res.outcomes["minimize_wrong"] += 1
+    else:
+        res.outcomes["minimize_def_ok"] += 1
+
+
+def explore_def4(res: Res, g: G, only=None):
     yg = to_y0(g)
+    for v in g.nodes:
+        for subs in sub_assignments(g.nodes, len(g.nodes)):
+            if not subs or v in dict(subs):
+                continue
+            if only and (v, subs) != only:
+                continue
+            case = {"graph": g.to_json(), "variable": [v, [[a, "+" if s else "-"] for a, s in subs]]}
+            check_variable_def(res, g, yg, v, subs, case)
+
+
+def _builder_judge(res, seed):
+    from .C07 import canonical_graph
+
+    def judge(y, g, hist):
+        cg = canonical_graph(g.nodes, g.di, g.bi)
+        before = sum(res.nviol.values())
+        # the clauses without recorded findings: ancestors, minimisation, ancestral components (SIMPLIFY and the
+        # factorisation have listed failing inputs, identified by graph and event, in the enumerated universe only)
+        explore_graph(res, cg, "quick", seed, yg=y, extra={"builder_ops": hist}, parts=("variable", "components"))
+        if sum(res.nviol.values()) > before:
+            res.outcomes["step_with_violations"] += 1
+        else:
+            res.outcomes["builder_step_ok"] += 1
+        return True  # keep growing: recorded findings of the counterfactual layer reproduce at most steps
+
+    return judge
+
+
+def explore_graph(res: Res, g: G, tier, seed, only=None, yg=None, extra=None, parts=("variable", "event", "components")):
+    yg = to_y0(g) if yg is None else yg
     before = snapshot(yg)
     m = TwoWitness(FSCM(g, salt=f"f{seed}"), FSCM(g, salt=f"g{seed}"))
     n = len(g.nodes)
-    if only is None or only[0] == "variable":
+    if (only is None or only[0] == "variable") and "variable" in parts:
         for v in g.nodes:
             for subs in sub_assignments(g.nodes, n):
                 if not subs:
                     continue
                 if only and (v, subs) != only[1]:
                     continue
-                case = {"graph": g.to_json(), "variable": [v, [[a, "+" if s else "-"] for a, s in subs]]}
+                case = dict({"graph": g.to_json(), "variable": [v, [[a, "+" if s else "-"] for a, s in subs]]}, **(extra or {}))
                 check_variable(res, g, yg, m, v, subs, case)
-    if only is None or only[0] == "event":
+    if (only is None or only[0] == "event") and "event" in parts:
         singles = event_items(g.nodes, n)
         small = event_items(g.nodes, 1)
         evs = [(it,) for it in singles] + [(a, b) for i, a in enumerate(small) for b in small[i:]]
         for items in evs if only is None else [only[1]]:
-            case = {"graph": g.to_json(), "event": event_json(items)}
+            case = dict({"graph": g.to_json(), "event": event_json(items)}, **(extra or {}))
             if len(res.samples) < 3 and len(items) == 2 and items[0][1]:
                 res.sample(case)
             check_event(res, g, yg, m, items, case)
-    if only is None or only[0] == "components":
+    if (only is None or only[0] == "components") and "components" in parts:
         # (comp) roots: one or two counterfactual variables (up to 1 subscript, non-reflexive); conditioned: any subset
         cvars = [(v, subs) for v in g.nodes for subs in sub_assignments(g.nodes, 1) if v not in dict(subs)]
         root_sets = [(a,) for a in cvars] + list(itt.combinations(cvars, 2))
@@ -292,14 +375,22 @@ def explore_graph(res: Res, g: G, tier, seed, only=None):
                     }
                     if only is not None and (case["roots"], case["conditioned"]) != only[1]:
                         continue
+                    case.update(extra or {})
                     check_components(res, g, yg, roots, cond, case)
     if snapshot(yg) != before:
         res.violation("side_effect", {"graph": g.to_json()}, "the caller's graph was modified")
 
 
 def work(shard, tier, seed):
-    lo, hi = shard
     res = Res()
+    if shard[0] == "build":
+        res.states += run_sequences(shard[1], 3, _builder_judge(res, seed), names=NAMES3)
+        return res
+    if shard[0] == "def4":
+        for g in _universe4(tier)[shard[1] : shard[2]]:
+            explore_def4(res, g)
+        return res
+    lo, hi = shard
     for g in _universe(tier)[lo:hi]:
         explore_graph(res, g, tier, seed)
     return res
@@ -310,6 +401,14 @@ def replay(case, clause=None):
 
     res = Res()
     g = G.from_json(case["graph"])
+    if "builder_ops" in case:
+        replay_sequence(case["builder_ops"], _builder_judge(res, int(os.environ.get("VERIF_SEED", "0") or 0)))
+        keys = [k for k in ("variable", "event", "roots", "conditioned") if k in case]
+        return [v for v in res.violations if v["input"].get("builder_ops") == case["builder_ops"] and all(v["input"].get(k) == case[k] for k in keys)][:1]
+    if len(g.nodes) == 4 and "variable" in case and len(g.di) + len(g.bi) > 3:
+        v, subs = case["variable"]
+        explore_def4(res, g, only=(v, tuple((a, s == "+") for a, s in subs)))
+        return list(res.violations)
     if "roots" in case:
         only = ("components", (case["roots"], case["conditioned"]))
     elif "variable" in case:
